@@ -3,8 +3,8 @@
   observable on them (evaluated by the kernel); negation witnesses show that the hypotheses are needed.
 -/
 import FcProofs.Props.C13
-namespace Fc
-open Fc.W
+namespace Fc.W.Wit13
+open Fc Fc.W
 
 -- "Man" ↦ "TWFu", one and two padding characters
 def asciiOf' (t : String) : List Nat := t.toList.map Char.toNat
@@ -66,10 +66,19 @@ example : Spec.hyp wF = true := by decide +kernel
 example : (writeVtu id wF).bind readVtu = Spec.normalise wF := by decide +kernel
 example : (Spec.normalise wF).isSome = true := by decide +kernel
 
+-- hypotheses of C13_vtu_arrays_roundtrip_partial are met by this data set
+example : (writeVtu id wF).isSome = true := by decide +kernel
+example : (∀ f ∈ wF.pf, ArrOk f.2) ∧ ArrOk (pointArray id wF) ∧ allCells wF.cells ≠ [] := by
+  refine ⟨?_, ⟨by decide +kernel, by decide +kernel, by decide +kernel⟩, by decide⟩
+  intro f hf
+  simp only [wF, List.mem_singleton] at hf
+  subst hf
+  exact ⟨by decide +kernel, by decide +kernel, by decide +kernel⟩
+
 -- CSV: hypothesis satisfiable; a token containing the delimiter does not survive (negation witness)
 example : csvHyp [[116], [120, 49]] [[[48, 46, 53], [49]], [[49, 46, 53], [45, 49]]] = true := by decide
 example : csvRead (csvWrite [[97]] [[[49, 44, 50]]]) ≠ some ([[97]], [[[49, 44, 50]]]) := by decide
 -- a single empty string cell makes the line vanish
 example : csvRead (csvWrite [[97]] [[[]], [[98]]]) = some ([[97]], [[[98]]]) := by decide
 
-end Fc
+end Fc.W.Wit13
